@@ -43,7 +43,9 @@ AMBIENT = {"time", "clock", "gettimeofday", "times", "rand", "srand", "random", 
            "getenv", "osGetEnv", "osDate", "osCpuTime", "osRandom", "localtime", "ctime", "gmtime", "getrusage",
            # where the process runs and who runs it: the working directory, links on the way to it, host and user
            "getcwd", "getwd", "get_current_dir_name", "realpath", "canonicalize_file_name", "readlink", "gethostname", "uname",
-           "getuid", "geteuid", "getlogin", "cuserid", "ttyname"}
+           "getuid", "geteuid", "getlogin", "cuserid", "ttyname",
+           # the repository's own way to ask where the process runs (fills a buffer with the working directory)
+           "osDirSwap"}
 
 
 EXPLANATION = EXPLANATION + EXPLANATION_D4
